@@ -1308,12 +1308,149 @@ theorem createAt_good {env : Env} (hinj : HashInj env) {st : Store} (hb : BlobsO
           exact ⟨g01.trans (Good.ofBlobStep (removeLayers_step env mo.all g01.canon hmo) g01.blobsOk g01.canon _),
             fun h => absurd (by simp) h⟩
 
+/-! ### pull -/
+
+/-- what a registry manifest must satisfy for the invariant to survive a pull of it: digests spelled
+    `sha256:`, and sizes that are the sizes of the contents the digests name (nothing in `PullModel` compares
+    the manifest's sizes with what was downloaded) -/
+def PullOk (env : Env) (m : Manifest) : Prop :=
+  (∀ l ∈ m.all, l.digest.form = .colon) ∧ ∀ l ∈ m.all, ∀ c, env.hash c = l.digest.hex → c.length = l.size
+
+theorem pullLayers_mans (env : Env) (served : List (String × Bytes)) (ls : List Layer) (st : Store) :
+    (pullLayers env st served ls).1.mans = st.mans := by
+  induction ls generalizing st with
+  | nil => rfl
+  | cons l t ih =>
+    simp only [pullLayers]
+    split
+    · exact ih st
+    · split
+      · rfl
+      · split
+        · rw [ih]
+        · rfl
+
+theorem setBlob_step (env : Env) {st : Store} {k : String} {c : Bytes} (hn : st.blob k = none)
+    (hh : env.hash c = k) : BlobStep env st { st with blobs := aset st.blobs k c } := by
+  refine ⟨rfl, fun _ h => Or.inl h, fun k' => ?_⟩
+  rw [blob_aset]
+  by_cases h : k' = k
+  · subst h
+    exact Or.inr ⟨Or.inr hn, fun c' hc' => by simp only [if_true] at hc'; injection hc' with e; rw [← e]; exact hh⟩
+  · simp [h]
+
+/-- the download + verify loop only adds correctly named blobs; when it succeeds every layer is complete -/
+theorem pullLayers_spec {env : Env} (served : List (String × Bytes)) (ls : List Layer) {st : Store}
+    (hb : BlobsOk env st) (hsz : ∀ l ∈ ls, ∀ c, env.hash c = l.digest.hex → c.length = l.size) :
+    BlobStep env st (pullLayers env st served ls).1 ∧
+    (∀ l, Complete env st l → Complete env (pullLayers env st served ls).1 l) ∧
+    ((pullLayers env st served ls).2 = true → ∀ l ∈ ls, Complete env (pullLayers env st served ls).1 l) := by
+  induction ls generalizing st with
+  | nil => exact ⟨BlobStep.refl env st, fun _ h => h, fun _ _ h => by cases h⟩
+  | cons l t ih =>
+    have iht := fun (st' : Store) (hb' : BlobsOk env st') =>
+      ih (st := st') hb' (fun x hx => hsz x (by simp [hx]))
+    simp only [pullLayers]
+    cases hc : st.blob l.digest.key with
+    | some c0 =>
+      simp only
+      obtain ⟨s1, m1, c1⟩ := iht st hb
+      refine ⟨s1, m1, fun hok x hx => ?_⟩
+      simp only [List.mem_cons] at hx
+      rcases hx with hx | hx
+      · subst hx
+        have hh := hb _ _ hc
+        exact m1 x ⟨c0, hc, hsz x (by simp) c0 hh, hh⟩
+      · exact c1 hok x hx
+    | none =>
+      simp only
+      cases hs : aget served l.digest.hex with
+      | none => exact ⟨BlobStep.refl env st, fun _ h => h, fun h => by cases h⟩
+      | some c =>
+        simp only
+        by_cases hh : env.hash c = l.digest.hex
+        · simp only [hh, if_true]
+          have s0 := setBlob_step env (k := l.digest.key) hc hh
+          have hb0 := s0.blobsOk hb
+          obtain ⟨s1, m1, c1⟩ := iht _ hb0
+          have mono0 : ∀ x, Complete env st x → Complete env { st with blobs := aset st.blobs l.digest.key c } x := by
+            intro x hx
+            refine hx.mono_blob (fun c' hc' => ?_)
+            rw [blob_aset]
+            by_cases hk : x.digest.key = l.digest.key
+            · rw [hk, hc] at hc'; cases hc'
+            · simp [hk, hc']
+          refine ⟨s0.trans s1, fun x hx => m1 x (mono0 x hx), fun hok x hx => ?_⟩
+          simp only [List.mem_cons] at hx
+          rcases hx with hx | hx
+          · subst hx
+            refine m1 x ⟨c, ?_, hsz x (by simp) c hh, hh⟩
+            rw [blob_aset]; simp
+          · exact c1 hok x hx
+        · simp only [hh, if_false]
+          exact ⟨BlobStep.refl env st, fun _ h => h, fun h => by cases h⟩
+
+theorem pullAt_good {env : Env} {st : Store} (hb : BlobsOk env st) (hc : Guard env st) (name : Name)
+    (reg : Option Manifest) (served : List (String × Bytes)) (hp : ∀ m, reg = some m → PullOk env m) :
+    Good env st (pullAt env st name reg served).1 [name] := by
+  unfold pullAt
+  cases reg with
+  | none => exact Good.refl hb hc _
+  | some m =>
+    simp only
+    obtain ⟨hcol, hsz⟩ := hp m rfl
+    obtain ⟨s1, _, c1⟩ := pullLayers_spec served m.all hb hsz
+    cases hpl : pullLayers env st served m.all with
+    | mk st1 ok =>
+      rw [hpl] at s1 c1
+      simp only at s1 c1
+      have g0 : Good env st st1 [name] := Good.ofBlobStep s1 hb hc _
+      cases ok with
+      | false => exact g0
+      | true =>
+        simp only
+        have g1 : Good env st1 (setManifest st1 name (.readable m)) [name] :=
+          Good.setManifest g0.blobsOk g0.canon name _ (fun m' e' => by
+            injection e' with e''; subst e''
+            exact ⟨fun l hl => Or.inr (hcol l hl), c1 rfl⟩)
+        have g01 := g0.trans g1
+        cases hold : st.readableAt name with
+        | none => exact g01
+        | some mo =>
+          simp only
+          have hmo : ∀ l ∈ mo.all, GD env l.digest := fun l hl => hc.gd (readableAt_eq_some.mp hold) hl
+          exact g01.trans (Good.ofBlobStep (removeLayers_step env mo.all g01.canon hmo) g01.blobsOk g01.canon _)
+
+theorem pullAt_mans (env : Env) (st : Store) (name : Name) (reg : Option Manifest)
+    (served : List (String × Bytes)) :
+    (pullAt env st name reg served).1.mans = st.mans ∨
+    ∃ m, reg = some m ∧ (pullAt env st name reg served).1.mans = aset st.mans name (.readable m) := by
+  unfold pullAt
+  cases reg with
+  | none => exact Or.inl rfl
+  | some m =>
+    simp only
+    have h1 := pullLayers_mans env served m.all st
+    cases hpl : pullLayers env st served m.all with
+    | mk st1 ok =>
+      rw [hpl] at h1
+      simp only at h1
+      cases ok with
+      | false => exact Or.inl h1
+      | true =>
+        simp only
+        refine Or.inr ⟨m, rfl, ?_⟩
+        cases st.readableAt name with
+        | none => simp only [setManifest]; rw [h1]
+        | some mo => simp only; rw [removeLayers_mans]; simp only [setManifest]; rw [h1]
+
 /-- the manifest names an operation may write, after `getExistingName` -/
 def targets (env : Env) (st : Store) (op : Op) (ch : Choice) : List Name :=
   match op with
   | .create r => [resolveName env st ch.ord1 r.name]
   | .copy _ d => [resolveName env st ch.ord2 d]
   | .delete n => [resolveName env st ch.ord1 n]
+  | .pull n _ _ => [resolveName env st ch.ord1 n]
   | .plant _ d => [d]
   | .corrupt n => [n]
   | .dashify n => [n]
@@ -1534,6 +1671,12 @@ theorem step_man_frame (env : Env) (st : Store) (op : Op) (ch : Choice) (n : Nam
     · rfl
   | litter j c => rfl
   | litterBlob k c => rfl
+  | pull t reg served =>
+    simp only [step]
+    simp only [targets, List.mem_singleton] at hn
+    rcases pullAt_mans env st (resolveName env st ch.ord1 t) reg served with h | ⟨m, _, h⟩
+    · exact man_congr h n
+    · unfold Store.man; rw [h, aget_aset]; simp [hn]
 
 /-! ## getExistingName and letter case -/
 
